@@ -107,9 +107,31 @@ struct tok_sender {
   }
 };
 
+// a receiver whose stop token is NOT inplace_stop_token itself (a thin wrapper): algorithms that special-case
+// inplace_stop_token (let_value_with_stop_token passes it through) take their general path (fused_stop_source)
+struct wtoken {
+  inplace_stop_token t;
+  template <typename F>
+  struct callback_type {
+    inplace_stop_callback<F> cb;
+    template <typename F2>
+    explicit callback_type(wtoken w, F2&& f) : cb(w.t, (F2&&)f) {}
+  };
+  bool stop_requested() const noexcept { return t.stop_requested(); }
+  bool stop_possible() const noexcept { return t.stop_possible(); }
+};
+struct wreceiver {
+  Rec* rec;
+  void set_value() && noexcept { rec->note('v'); }
+  template <typename E> void set_error(E&&) && noexcept { rec->note('e'); }
+  void set_done() && noexcept { rec->note('d'); }
+  friend wtoken tag_invoke(tag_t<get_stop_token>, const wreceiver& r) noexcept { return wtoken{r.rec->src->get_token()}; }
+};
+
 // let_value_with_stop_token: the successor gets an inplace_stop_token that follows the receiver's token.
 // prestop: the receiver's source is stopped before start; otherwise it is stopped while the child runs.
-void run_lvst(const char* name, bool prestop, char child_outcome) {
+template <typename Receiver>
+void run_lvst(const char* name, bool prestop, char child_outcome, bool nostop = false) {
   inplace_stop_source src;
   Rec rec; rec.src = &src;
   tok_ctl c;
@@ -118,11 +140,11 @@ void run_lvst(const char* name, bool prestop, char child_outcome) {
   {
     auto op = unifex::connect(
         let_value_with_stop_token([&](inplace_stop_token t) noexcept { handed = t; return tok_sender{&c}; }),
-        receiver{&rec});
+        Receiver{&rec});
     unifex::start(op);
     bool seen_before = c.seen_tok.stop_requested() || handed.stop_requested();
-    if (!prestop) src.request_stop();
-    bool seen = c.started && (handed.stop_requested());
+    if (!prestop && !nostop) src.request_stop();
+    bool seen = c.started && (handed.stop_requested() || nostop);
     if (c.complete) c.complete(child_outcome);
     int after = rec.completion != '-' ? live_on(src) : -1;
     // seen: the stop request on the receiver's token was visible through the token handed to the successor factory
@@ -180,9 +202,16 @@ int main() {
     rec.ext[0] = &st;
     run("sor_prestopped_then_throw", rec, [&] { return stop_on_request(pre.get_token(), ttoken{&st}); });
   }
-  run_lvst("lvst_stop_while_running_d", false, 'd');
-  run_lvst("lvst_stop_while_running_v", false, 'v');
-  run_lvst("lvst_prestopped_d", true, 'd');
+  run_lvst<struct receiver>("lvst_stop_while_running_d", false, 'd');
+  run_lvst<struct receiver>("lvst_stop_while_running_v", false, 'v');
+  run_lvst<struct receiver>("lvst_prestopped_d", true, 'd');
+  run_lvst<wreceiver>("lvstw_stop_while_running_d", false, 'd');
+  run_lvst<wreceiver>("lvstw_stop_while_running_v", false, 'v');
+  run_lvst<wreceiver>("lvstw_prestopped_d", true, 'd');
+  // no stop request at all: the registration made in start() must be gone when the receiver is completed
+  run_lvst<struct receiver>("lvst_nostop_v", false, 'v', true);
+  run_lvst<wreceiver>("lvstw_nostop_v", false, 'v', true);
+  run_lvst<wreceiver>("lvstw_nostop_d", false, 'd', true);
   std::printf("END\n");
   return 0;
 }
